@@ -44,6 +44,8 @@ def L():
     if _lazy:
         return _lazy
     core.import_mesa()
+    import logging
+
     import altair  # noqa
     import matplotlib
     import networkx as nx
@@ -62,9 +64,12 @@ def L():
     from mesa.experimental.continuous_space import ContinuousSpaceAgent
     from mesa.visualization import Slider
     from mesa.visualization import solara_viz as sv
-    from mesa.visualization.components.altair_components import _draw_grid
+    from mesa.visualization.components.altair_components import _draw_grid, make_altair_space
+    from mesa.visualization.components.matplotlib_components import make_mpl_space_component
     from mesa.visualization.mpl_space_drawing import collect_agent_data, draw_property_layers, draw_space
 
+    # components that raise (expected: NotImplementedError, open finding V7) are logged with a traceback by reacton
+    logging.getLogger("reacton").setLevel(logging.CRITICAL)
     mpaths = {}
     for m in MARKERS:
         ms_ = MarkerStyle(m)
@@ -160,6 +165,8 @@ class SpaceImpl:
         else:
             raise ValueError(fam)
         self.space = sp
+        # solara components look the space up as model.grid, else model.space
+        setattr(self.model, "space" if fam in ("cs", "xcs") else "grid", sp)
         self.agents = {}  # vid -> agent object currently in the space
         self.where = {}  # vid -> (x, y): the harness' own record of where it put the agent
         self.heap = []  # the dict objects the portrayal hands out
@@ -354,14 +361,21 @@ class SpaceImpl:
         groups.sort(key=lambda g: (g[0], g[1]))
         return groups
 
-    def draw(self):
+    def draw(self, component=False):
         m = L()
         snap = self.snapshot()
         ax = m["Figure"]().add_subplot()
         with warnings.catch_warnings():
             warnings.simplefilter("ignore")
             try:
-                m["draw_space"](self.space, self.portrayal, ax=ax)
+                if component:
+                    # the solara component builds its own Figure; post_process receives the Axes
+                    got = []
+                    comp = m["make_mpl_space_component"](self.portrayal, post_process=got.append)
+                    m["solara"].render(comp(self.model), handle_error=False)
+                    ax = got[0]
+                else:
+                    m["draw_space"](self.space, self.portrayal, ax=ax)
             except Exception as e:
                 self.trace.append(("draw", snap, None, exc_tok(e) + ": " + str(e)[:80], self.heap_before, self.heap_now()))
                 return exc_tok(e)
@@ -370,13 +384,19 @@ class SpaceImpl:
         return "ok" + "".join(
             f" | {mk} {z} n={len(mem)}" + "".join(" " + ",".join(t) for t in mem) for mk, z, mem in groups)
 
-    def altair(self):
+    def altair(self, component=False):
         m = L()
         snap = self.snapshot()
         with warnings.catch_warnings():
             warnings.simplefilter("ignore")
             try:
-                chart = m["_draw_grid"](self.space, self.portrayal)
+                if component:
+                    got = []
+                    comp = m["make_altair_space"](self.portrayal, None, post_process=lambda ch: (got.append(ch), ch)[1])
+                    m["solara"].render(comp(self.model), handle_error=False)
+                    chart = got[0]
+                else:
+                    chart = m["_draw_grid"](self.space, self.portrayal)
                 d = chart.to_dict()
             except Exception as e:
                 self.trace.append(("altair", snap, None, exc_tok(e) + ": " + str(e)[:80], self.heap_before, self.heap_now()))
@@ -506,8 +526,12 @@ class SpaceImpl:
             return self.collect(tuple(w[1:5]))
         if k == "draw":
             return self.draw()
+        if k == "drawc":
+            return self.draw(component=True)
         if k == "altair":
             return self.altair()
+        if k == "altairc":
+            return self.altair(component=True)
         if k == "heap":
             return self.heap_line()
         if k == "layer":
@@ -709,10 +733,14 @@ def gen_space(R, tier):
             return "collect"
         if k < 0.36:
             return f"collectd {R.choice(FACE_COLORS)} {R.choice(SIZES)} {R.choice(MARKERS)} {R.choice(ZORDERS)}"
-        if k < 0.74:
+        if k < 0.72:
             return "draw"
-        if k < 0.94:
+        if k < 0.74:
+            return "drawc"  # through the solara component (renders a PNG: slow, so rare)
+        if k < 0.88:
             return "altair"
+        if k < 0.94:
+            return "altairc"
         return "heap"
 
     def set_portray(vid):
@@ -819,7 +847,7 @@ def gen_sig(R):
         params.append(("self", "po" if npo else "pk", "d"))
     dflt = bool(params) and params[0][2] == "d"
     for i in range(npo + npk):
-        dflt = dflt or R.random() < 0.3
+        dflt = dflt or R.random() < (0.55 if i < npo else 0.3)
         params.append((fresh(), "po" if i < npo else "pk", "d" if dflt else "n"))
     if R.random() < 0.1:
         params.append((fresh(R.sample(["args", "rest"], 1)), "vp", "n"))
@@ -869,6 +897,48 @@ def gen_params(R, tier):
                 vals = [R.choice(["slider", "val", "val", "dict+type+value", "dict+type", "dict+label+value", "dict"]) for _ in names]
                 lines.append(" ".join(["split", *[f"{a}:{b}" for a, b in zip(names, vals)]]))
     return core.Scenario(lines, {})
+
+
+def enum_signatures(maxn=3):
+    """every valid signature shape with at most `maxn` parameters after the instance parameter
+    (instance: positional-or-keyword, positional-only, or absent), as params scenarios that check
+    every subset of {parameter names, the instance's name, an unknown name}"""
+    rank = {"po": 0, "pk": 1, "vp": 2, "ko": 3, "vk": 4}
+    out = []
+
+    def rec(prefix, n_left):
+        yield prefix
+        if n_left == 0:
+            return
+        last = prefix[-1] if prefix else None
+        for kind in ("po", "pk", "vp", "ko", "vk"):
+            if last and rank[kind] < rank[last[1]]:
+                continue
+            if kind in ("vp", "vk") and last and last[1] == kind:
+                continue
+            if kind == "vp" and last and last[1] == "ko":
+                continue
+            for d in ("n", "d"):
+                if kind in ("vp", "vk") and d == "d":
+                    continue
+                if kind in ("po", "pk") and d == "n" and any(p[1] in ("po", "pk") and p[2] == "d" for p in prefix):
+                    continue
+                name = {"vp": "rest", "vk": "kw"}.get(kind, "abc"[sum(1 for p in prefix if p[0] in "abc")])
+                yield from rec(prefix + [(name, kind, d)], n_left - 1)
+
+    for inst in ([("self", "pk", "n")], [("self", "po", "n")], []):
+        for params in rec(list(inst), maxn):
+            if inst and inst[0][1] == "pk" and any(p[1] == "po" for p in params[1:]):
+                continue
+            if not params:
+                continue
+            names = [p[0] for p in params if p[1] not in ("vp", "vk")] + ["zz"]
+            names = list(dict.fromkeys(names))
+            lines = ["scenario params", "sig " + " ".join(":".join(p) for p in params)]
+            for mask in range(1 << len(names)):
+                lines.append(" ".join(["check"] + [n for i, n in enumerate(names) if mask >> i & 1]))
+            out.append(core.Scenario(lines, {"exhaustive": True}))
+    return out
 
 
 def gen_scenario(R, tier):
